@@ -255,13 +255,24 @@ def family_f16():
         pid += 1
         d = dict(decl or {"var": "", "marker": ""})
         d.setdefault("catches", label == "decl_in_try")
+        d.setdefault("tag", "")       # tag carried by the declaration ("" = none)
+        # what PteraNameError.info()["annotation"] must show for the declaration (a fact about the program text)
+        d.setdefault("ann", "" if not d["var"] else "ann:ptera.tag.T" if d["tag"] else "ann:<class 'int'>")
         progs.append(dict(I.program(f"p{pid}", ["x"], body, pid=pid), form=label, ctx="f16", family="F16", decl=d))
     k = K()
     add([I.assign(I.name("a"), I.site(k())), I.expr(I.call(901)), I.ann("d", "int"), I.expr(I.call(902)), I.seen("d"),
          I.ret(I.add(I.read("d"), I.read("a")))], "decl_top", {"var": "d", "marker": "901"})
     k = K()
     add([I.expr(I.call(901)), I.ann("d", "@T"), I.expr(I.call(902)), I.assign(I.name("b"), I.read("d")), I.seen("b"), I.ret(I.read("b"))],
-        "decl_tagged", {"var": "d", "marker": "901"})
+        "decl_tagged", {"var": "d", "marker": "901", "tag": "T"})
+    k = K()
+    # the same declaration with the tag written as an object (tag.T) instead of a string ("@T")
+    add([I.expr(I.call(901)), I.ann("d", "tag.T"), I.expr(I.call(902)), I.assign(I.name("b"), I.read("d")), I.seen("b"), I.ret(I.read("b"))],
+        "decl_tagged_obj", {"var": "d", "marker": "901", "tag": "T"})
+    k = K()
+    # a tagged declaration in a function that has other bindings (tagged differently / untagged) before it
+    add([I.ann("a", "@U", I.site(k())), I.assign(I.name("c"), I.site(k())), I.expr(I.call(901)), I.ann("d", "@T"), I.expr(I.call(902)), I.seen("d"),
+         I.ret(I.add(I.read("d"), I.read("a")))], "decl_tagged_mixed", {"var": "d", "marker": "901", "tag": "T"})
     k = K()
     add([I.for_(I.name("i"), k(), [I.expr(I.call(901)), I.ann("d", "int"), I.expr(I.call(902)), I.seen("d")]), I.ret(I.site(k()))],
         "decl_in_loop", {"var": "d", "marker": "901"})
